@@ -40,6 +40,7 @@ namespace std
 			bool ok = v.compare_exchange_strong(expected, desired);   // strong: failures are exactly the scripted / genuine ones
 			c19::cas_result(ok); return ok;
 		}
+		bool compare_exchange_strong(T& expected, T desired, memory_order o = memory_order_seq_cst) noexcept { return compare_exchange_weak(expected, desired, o); }
 		T exchange(T x, memory_order = memory_order_seq_cst) noexcept { T r = v.exchange(x); c19::on_exchange(); return r; }
 	private:
 		atomic<T> v;
